@@ -174,6 +174,19 @@ def main(tier, seed):
                     so = so.replace(argp2, "<input>")
                 se = se.replace(argp2, "<input>")
                 outs.append((lab, rc, t, so, re.sub(r"VERIF-\S+[^\n]*\n", "", se)))
+                if lab == "a":
+                    # once more in the same directory, on top of the files of the first run: the same files again
+                    rc2, so2, se2 = sh(prefix + tools[tname] + [argp2], cwd=cwd, env=env, timeout=900, clean_env=True)
+                    hist["tool_runs"] += 1
+                    t2 = tree(cwd)
+                    if tname == "schema_scanner":
+                        t2 = {k: re.sub(rb'SCHEMA_TARGETS\("[^"]*"', b'SCHEMA_TARGETS("<input>"', v) for k, v in t2.items()}
+                    if rc2 != rc or t2 != t:
+                        oracle_fail += 1
+                        p = save("c12-%s.exp" % tag, text)
+                        dk = sorted(set(t) ^ set(t2)) or [k for k in t if t[k] != t2.get(k)]
+                        res.violation("%s: a second run in the directory of the first changes the output (status %d then %d; files that differ: %s)" % (tname, rc, rc2, dk[:4]),
+                                      {"input_file": p, "replay": "run %s twice in one directory on %s and compare the directory after each run" % (tname, p)})
             evals += 1
             base = outs[0]
             if base[1] == 0 and base[2]:
